@@ -96,16 +96,27 @@ CHECKS = {
         'DESIGN.md section 5 C11',
     ),
     'C01': (
-        'Rocq proof of the reference denotation properties + differential execution of the real compiler output by an independent interpreter',
+        'Rocq proof: properties of the reference denotation + a symbol-table validator proved sound for all graphs and tables '
+        '(translation validation of the real flow.compile output on every generated segment) + executable model of the '
+        'compiler algorithm tied symbol-for-symbol to the real table by the correspondence run',
         'PARTIAL. Model/C01.v is the reference denotation of a segment over free terms (every actor an uninterpreted symbol): '
         'argument order, per-port getters, state of the sibling trained in the same run, previous states loaded and new states '
-        'committed per persistent group at its list position. Proved: each task evaluated exactly once and functionally, state '
-        'binding of derived actors, trained state construction, commit positions. The compiler algorithm itself is not '
-        'modelled: flow.compile is run on random segments (multi-output, unused ports, fork groups, arbitrary train/label '
-        'sources, every connection order, any persistent subset/order) and its table executed by an independent interpreter '
-        'must equal the denotation (sink term, commit list, loads, one call per task).',
-        BASE_NOTE + 'No theorem covers the compiler internals: the tie is the executed behaviour on the generated topologies.',
-        'DESIGN.md section 5 C01',
+        'committed per persistent group at its list position. Proved about it: each task evaluated exactly once and '
+        'functionally, state binding of derived actors, trained state construction, commit positions. Model/C01Compile.v adds '
+        '(a) the instruction semantics (Functor/Apply/Train/SetState preset, Loader, Dumper, Getter, Committer) as an evaluator '
+        'of position-based symbol tables, (b) a validator `validate`/`valid_commit` proved sound for EVERY graph, accessor and '
+        'table (C01_table_sound, C01_port_value, C01_commit_sound: an accepted table evaluates at every node functor to the '
+        'graph value and at the committer to the trained states at their list positions), and (c) an executable model of the '
+        'compiler algorithm itself (Table.add, Linkage.insert/update/prepend/leaves, Index.set/reset, __iter__ with groupby '
+        'alias merge and stub-getter pruning, every assertion as an error). On every generated segment (multi-output, unused '
+        'ports, fork groups, arbitrary train/label sources, every connection order, any persistent subset/order) the real '
+        'flow.compile output must (1) equal the compiler model output symbol for symbol under the recorded traversal order, '
+        '(2) be accepted by the proved validator, (3) evaluate in Coq to the sink term the independent Python interpreter '
+        'obtained, and (4) match the denotation in sink term, commit list, loads and one call per task. Not proved: that the '
+        'compiler MODEL is accepted by the validator for all graphs and traversal orders (checked per case by vm_compute).',
+        BASE_NOTE + 'The all-inputs guarantee for the compiler rests on validator soundness (proved) + acceptance of each emitted '
+        'table (computed per case), not on a proof about the compiler algorithm.',
+        'DESIGN.md section 5 C01 and section 10.9',
     ),
     'C02': (
         'Rocq model of the reference table semantics and of the pyfunc transcoder (refutations by vm_compute, fuel-irrelevance proof) + differential execution on all backends',
